@@ -162,7 +162,7 @@ func CheckC15(run *evid.Run) {
 	run.Rule = "seeded forked histories (default ordering when total, hash-tiebreak); on the final state of every replica a seeded set of iterator queries: upper bound in {default heads, 1-3 inclusive bounds (causally related or unrelated), one exclusive bound, unknown hash}; lower bound in {none, inclusive, exclusive} at seeded positions inside the selected range; amount in {nil, 0, 1, ..., size+2}; every query runs under recover with a buffered channel drained after the call returned. The emitted sequence must equal the model's (past of the upper bound, newest first, cut at the lower bound, first/last `amount`), the channel must be closed on success, unknown upper bounds must be errors. With several causally related inclusive bounds and an amount (no lower bound) the oracle accepts a prefix that is short by at most (#bounds-1), because the property only promises 'at most'. After the queries a writer and a further iteration must complete (state-based: a writer in a lock wait is a violation), also through an unbuffered channel whose consumer writes to the same log. In child processes, one scenario at a time: every kind of bounded iteration is parked at its hook points while an append / merge / identity change starts on the same log (both must end; deadlock = every library goroutine in a lock wait, twice, no hook event), and logs trimmed by a size-bounded merge are iterated with bounds at their oldest entry before a writer is started. Non-trivial query = on a log with a fork and with a lower bound or an amount; distinct = (upper kind, lower kind, amount class, heads>1) + position classes"
 	parallel(nh, func(i int) {
 		rng := rand.New(rand.NewSource(run.Seed*1299709 + int64(i)))
-		h := hx.Gen(run.Seed, i, hx.GenOpts{MaxSteps: pick(run.Tier, 30, 60), Orders: []string{"hash", "default"}, Shapes: []string{"widefork", "diamond", "mixed", "overlap", "lopsided", "ring"}})
+		h := hx.Gen(run.Seed, i, hx.GenOpts{MaxSteps: pick(run.Tier, 30, 60), Orders: []string{"hash", "default"}, Shapes: []string{"widefork", "diamond", "mixed", "overlap", "lopsided", "ring"}, Huge: true})
 		x := hx.NewExec(h)
 		forked := false
 		for k := range h.Steps {
@@ -546,6 +546,23 @@ func c16Case(run *evid.Run, i int, j *Journal) {
 			}
 			if n >= total && obsEqual(got, full) != "" {
 				run.Violate("C16/large-bound-differs", d, wit(), "Join(other, %d) with n >= total differs from the unbounded merge: %s", n, obsEqual(got, full))
+			}
+		} else if n > 0 && n < total {
+			// the ordering leaves ties (one writer on two replicas): "THE linearisation the unbounded merge would have
+			// produced" is then whatever the library does with ties - but it is one linearisation: the same merge of the
+			// same two logs (a replay twin: identical entries, identical hashes) must keep the same entries
+			x2 := exec()
+			var p2 any
+			func() {
+				defer func() { p2 = recover() }()
+				_, _ = x2.Logs[a].Join(src(x2), n)
+			}()
+			if p2 == nil {
+				got2 := hx.Observe(x2.Logs[a])
+				run.Count("bounded_merges_repeated_on_a_twin_(ordering_with_ties)", 1)
+				if !model.SameKeys(got.Set, got2.Set) {
+					run.Violate("C16/not-reproducible", d, wit(), "Join(other, %d) on two identical pairs of logs (ordering with ties) kept different entries: %v vs %v", n, hx.SortedShorts(got.Set.Keys()), hx.SortedShorts(got2.Set.Keys()))
+				}
 			}
 		}
 		if len(oa.Set) > 0 && len(ob.Set) > 0 && !model.SameKeys(oa.Set, ob.Set) && n > 0 && n != total {
